@@ -388,22 +388,32 @@ func bigOp(f []string) string {
 	r.start()
 	var bad []string
 	n := 0
-	ask := func(dg []byte) []byte {
+	// a reply is awaited for `wait`; one that belongs to another datagram of this operation (a late one) is skipped
+	ask := func(dg []byte, wait time.Duration, xid []byte) []byte {
 		r.clients[0].Write(dg)
 		buf := make([]byte, 70000)
-		if v6 {
-			r.clients[0].SetReadDeadline(time.Now().Add(150 * time.Millisecond))
-			if k, err := r.clients[0].Read(buf); err == nil {
-				return buf[:k]
+		deadline := time.Now().Add(wait)
+		for time.Now().Before(deadline) {
+			var k int
+			var err error
+			if v6 {
+				r.clients[0].SetReadDeadline(deadline)
+				k, err = r.clients[0].Read(buf)
+			} else {
+				r.rx4.SetReadDeadline(deadline)
+				k, err = r.rx4.Read(buf)
 			}
-			return nil
-		}
-		r.rx4.SetReadDeadline(time.Now().Add(150 * time.Millisecond))
-		if k, err := r.rx4.Read(buf); err == nil {
-			return buf[:k]
+			if err != nil {
+				return nil
+			}
+			rep := append([]byte(nil), buf[:k]...)
+			if v6 && k >= 4 && bytes.Equal(rep[1:4], xid) || !v6 && k >= 8 && bytes.Equal(rep[4:8], xid) {
+				return rep
+			}
 		}
 		return nil
 	}
+	const waitNone, waitReply = 150 * time.Millisecond, 3 * time.Second
 	if v6 {
 		// 4 bytes header, 14 bytes Client ID (DUID-LL), then padding options (4-byte header each, body up to 60000)
 		for _, off := range bigOffsets(rng, 65000) {
@@ -434,7 +444,7 @@ func bigOp(f []string) string {
 					continue
 				}
 				n++
-				rep := ask(dg)
+				rep := ask(dg, map[string]time.Duration{"A": waitNone, "B": waitReply}[kind], m.TransactionID[:])
 				if kind == "A" && rep != nil {
 					bad = append(bad, fmt.Sprintf("v6A-len%d-tail%d:answered", len(dg), off))
 				}
@@ -494,7 +504,7 @@ func bigOp(f []string) string {
 					continue
 				}
 				n++
-				rep := ask(b)
+				rep := ask(b, map[string]time.Duration{"A": waitNone, "B": waitReply}[kind], d.TransactionID[:])
 				if kind == "A" && rep != nil {
 					bad = append(bad, fmt.Sprintf("v4A-len%d-tail%d:answered", len(b), off))
 				}
